@@ -384,3 +384,6 @@ def modifications(sx, B):
         want = [(a, p) for (tt, a, p) in expect_new if tt == t]
         sx.claim(sorted(added) == sorted(want), "a modification adds exactly its own interactions, on atoms of the target residue",
                  lambda: "%s: added %r expected %r" % (t, added, want))
+
+
+import harness.C02  # noqa: E402  (registers C01.guarded_links, which reuses the C02 catalogue machinery)
